@@ -409,7 +409,9 @@ def is_benign_call(call: ast.Call, handler_vars=()) -> bool:
     if name == "getattr" and len(call.args) == 3:
         return True
     f = call.func
-    if isinstance(f, ast.Attribute) and f.attr in ("set", "is_set", "done", "cancel", "cancelled") and not call.args and not call.keywords:
+    if name in ("asyncio.current_task", "asyncio.get_running_loop", "asyncio.get_event_loop") and not call.args and not call.keywords:
+        return True  # asking the event loop who is running does not raise inside a coroutine
+    if isinstance(f, ast.Attribute) and f.attr in ("set", "is_set", "done", "cancel", "cancelled", "cancelling", "uncancel") and not call.args and not call.keywords:
         return True  # synchronous state methods of asyncio/anyio events, futures and tasks are total
     if isinstance(f, ast.Attribute) and f.attr in ("lower", "upper", "strip", "startswith", "endswith", "split", "rstrip", "lstrip") and len(call.args) <= 1 and not call.keywords:
         recv = f.value
